@@ -503,6 +503,11 @@ def r5_job_codec(chk):
         from ..canon import Env as _E5d
 
         okd = len(dc) == 1 and norm(_E5d(d.node).expand(dc[0].args[0], at=dc[0])) == "attrs.asdict(self)" and not [k for k in dc[0].keywords if k.arg not in (None,)]
+        if okd and isinstance(dc[0].args[0], ast.Name):
+            nm_d = dc[0].args[0].id
+            okd = not any((isinstance(x, (ast.Assign, ast.AugAssign, ast.Delete)) and any(p_.startswith(nm_d + "[") for p_ in stored_paths(x)))
+                          or (isinstance(x, ast.Call) and isinstance(x.func, ast.Attribute) and norm(x.func.value) == nm_d and x.func.attr in ("update", "pop", "clear", "setdefault", "popitem", "__setitem__"))
+                          for x in walk_no_nested(d.node))
         chk.decide(okd, "C17.R5", f"{d.key}:dumps-asdict-unmodified", d.where(dc[0] if dc else None), "msgpack.dump(attrs.asdict(self), f)",
                    f"{cname}.dump serialises `{norm(dc[0].args[0]) if dc else None}`, not attrs.asdict(self) as is: the object read back differs from the one written"
                    + (" and hashes differently, so input_hash never matches the caller's hash" if cname == "JobInput" else ""))
@@ -515,5 +520,12 @@ def r5_job_codec(chk):
     from ..canon import Env as _E5
 
     harg = norm(_E5(h.node).expand(hc[0].args[0], at=hc[0])) if len(hc) == 1 else None
+    if len(hc) == 1 and isinstance(hc[0].args[0], ast.Name):
+        # a local that names the mapping must reach the digest as it was built
+        nm_ = hc[0].args[0].id
+        touched = [x for x in walk_no_nested(h.node) if (isinstance(x, (ast.Assign, ast.AugAssign, ast.Delete)) and any(p_.startswith(nm_ + "[") for p_ in stored_paths(x)))
+                   or (isinstance(x, ast.Call) and isinstance(x.func, ast.Attribute) and norm(x.func.value) == nm_ and x.func.attr in ("update", "pop", "clear", "setdefault", "popitem", "__setitem__"))]
+        if touched:
+            harg = f"{harg} altered by `{short(touched[0], 50)}`"
     chk.decide(len(hc) == 1 and harg == "attrs.asdict(self)", "C17.R5", f"{h.key}:digest-of-asdict", h.where(), "hash = digest(msgpack.dumps(attrs.asdict(self)))",
                "JobInput.hash does not digest the same mapping that dump writes")
